@@ -238,7 +238,7 @@ def typeOf : GoTy → Ty
 def inst : Ty → Val → Bool
   | .int lo hi, .int i => lo ≤ i && i ≤ hi
   | .int _ _, _ => false
-  | .float w, .flt b => if w = 32 then b % 2 ^ 63 ≤ maxF32 else finite b
+  | .float w, .flt b => if w = 32 then b % 2 ^ 63 ≤ maxF32 else !isNaN b   -- the default Float has no bounds: ±Inf included
   | .float _, _ => false
   | .str, .str _ => true
   | .str, _ => false
@@ -357,12 +357,12 @@ def RtOK (via : Bool) : GoTy → GoVal → Bool
 
 /-- the derived type accepts the wrapped value: excludes exactly
     * unsigned values ≥ 2^63 (wrap to a negative Integer; the derived type is Integer[0, 2^63-1]),
-    * ±Inf / NaN floats (Float is [-MaxFloat64, MaxFloat64]),
+    * ±Inf held in a float32 (the derived type is Float[-MaxFloat32, MaxFloat32]) and NaN,
     * `[]byte` reached through `wrap` (becomes a Binary; the derived type is Array[Integer[0,255]]),
     * nil slices and maps that wrap to undef (the derived Array / Hash type is not Optional). -/
 def TaOK (via : Bool) : GoTy → GoVal → Bool
   | .uint _, .int i => i < 2 ^ 63
-  | .float _, .flt b => finite b
+  | .float w, .flt b => if w = 32 then finite b else !isNaN b
   | .slice e, .nil => via && nilToEmptySlice e
   | .slice e, .slice es => !(via && e = .uint 8) && es.all (TaOK true e)
   | .array _ e, .arr es => es.all (TaOK true e)
